@@ -181,3 +181,69 @@ Proof.
   { induction l as [|a l IHl]; [reflexivity|]. cbn [flat_map]. rewrite app_length, map_length, IH, IHl. cbn [length]. lia. }
   rewrite H, seq_length. change (fact (S (S i))) with (S (S i) * fact (S i))%nat. reflexivity.
 Qed.
+
+(** * Round 3: the identity (and every other order) is reachable; Sattolo's variant cannot *)
+
+(* drawing j = i at every step leaves the list alone: the explicit witness for the identity *)
+Fixpoint ident_draws (i : nat) : list nat :=
+  match i with O => [] | S i' => i :: ident_draws i' end.
+
+Lemma ident_draws_admissible i : admissible i (ident_draws i).
+Proof. induction i as [|i IH]; cbn; [exact I | split; [lia | exact IH]]. Qed.
+
+Lemma upd_same {A} (l : list A) k x : nth_error l k = Some x -> upd l k x = l.
+Proof.
+  revert k. induction l as [|h t IH]; intros [|k] H; cbn in *; try discriminate.
+  - inversion H; reflexivity.
+  - f_equal. apply IH, H.
+Qed.
+
+Lemma swap_same {A} (l : list A) i : swap l i i = l.
+Proof.
+  unfold swap. destruct (nth_error l i) as [a|] eqn:E; [|reflexivity].
+  rewrite (upd_same l i a E). apply upd_same, E.
+Qed.
+
+Lemma shuffle_from_ident {A} i (l : list A) : shuffle_from i l (ident_draws i) = l.
+Proof.
+  revert l. induction i as [|i IH]; intros l; [reflexivity|].
+  cbn [ident_draws shuffle_from]. rewrite swap_same. apply IH.
+Qed.
+
+Theorem shuffle_reaches_identity {A} (l : list A) :
+  admissible (length l - 1) (ident_draws (length l - 1)) /\
+  shuffle l (ident_draws (length l - 1)) = l.
+Proof. split; [apply ident_draws_admissible | apply shuffle_from_ident]. Qed.
+
+(* Sattolo's algorithm draws j from [0, i-1] instead of [0, i] *)
+Fixpoint sattolo_admissible (i : nat) (js : list nat) : Prop :=
+  match i, js with
+  | O, [] => True
+  | S i', j :: js' => (j <= i')%nat /\ sattolo_admissible i' js'
+  | _, _ => False
+  end.
+
+Lemma sattolo_is_admissible i js : sattolo_admissible i js -> admissible i js.
+Proof.
+  revert js. induction i as [|i IH]; intros [|j js]; cbn; try tauto.
+  intros [Hj H]. split; [lia | apply IH, H].
+Qed.
+
+(* with Sattolo's draws a duplicate-free list of two or more elements never keeps its order:
+   the last element is exchanged with an earlier one and never comes back *)
+Theorem sattolo_never_identity {A} (l : list A) js :
+  NoDup l -> (2 <= length l)%nat -> sattolo_admissible (length l - 1) js -> shuffle l js <> l.
+Proof.
+  intros Hnd Hlen Hs He. unfold shuffle in He.
+  destruct (length l) as [|[|i]] eqn:El; try lia.
+  replace (S (S i) - 1)%nat with (S i) in * by lia.
+  destruct js as [|j js]; [contradiction|]. destruct Hs as [Hj Hs].
+  destruct (nth_error l j) as [y|] eqn:Ej; [|apply nth_error_None in Ej; lia].
+  destruct (shuffle_step l i j js y El Ej (sattolo_is_admissible _ _ Hs)) as [pre [_ [Hp Hr]]].
+  rewrite Hr in He.
+  (* the last element of l is y = l[j] with j < last index: contradicts NoDup *)
+  assert (Hlast : nth_error l (S i) = Some y).
+  { rewrite <- He. rewrite nth_error_app2 by (rewrite <- (Permutation_length (shuffle_from_perm i pre js)); lia).
+    rewrite <- (Permutation_length (shuffle_from_perm i pre js)), Hp, Nat.sub_diag. reflexivity. }
+  rewrite NoDup_nth_error in Hnd. assert (j = S i) by (apply Hnd; [lia | congruence]). lia.
+Qed.
